@@ -438,7 +438,8 @@ func (s *sys) Ops() []string {
 		for _, g := range gws {
 			l := leases[len(leases)-1]
 			ops = append(ops, fmt.Sprintf("mk %d %s vir a -", g, l), fmt.Sprintf("mk %d %s vir b -", g, l),
-				fmt.Sprintf("txp %d %s create-create", g, l), fmt.Sprintf("txp %d %s delete-create", g, l))
+				fmt.Sprintf("txp %d %s create-create", g, l), fmt.Sprintf("txp %d %s delete-create", g, l),
+				fmt.Sprintf("txp %d %s two-open-creates", g, l))
 			if len(s.refs) > 0 {
 				ops = append(ops, fmt.Sprintf("txp %d %s rename-create", g, l), fmt.Sprintf("txp %d %s create-rename", g, l))
 			}
@@ -756,6 +757,38 @@ func (s *sys) Apply(op string) (obs string, err error) {
 		var e1, e2 error
 		wantSecond := "refused"
 		var created []channel.Channel
+		if f[3] == "two-open-creates" {
+			// two transactions open at the same time each create a channel named q; each sees
+			// the committed state plus its own writes. Whatever is accepted, after both have
+			// ended no two channels may carry the name.
+			_ = tx.Close()
+			txA, txB := nd.DB.OpenTx(), nd.DB.OpenTx()
+			qa, _ := s.mkChannel(f[2], "vir", "q")
+			qb, _ := s.mkChannel(f[2], "vir", "q")
+			ea := nd.Channel.NewWriter(txA).Create(ctx, &qa)
+			eb := nd.Channel.NewWriter(txB).Create(ctx, &qb)
+			var ca, cb error
+			if ea == nil {
+				ca = txA.Commit(ctx)
+			}
+			if eb == nil {
+				cb = txB.Commit(ctx)
+			}
+			_, _ = txA.Close(), txB.Close()
+			var made []channel.Channel
+			if ea == nil && ca == nil {
+				made = append(made, qa)
+			}
+			if eb == nil && cb == nil {
+				made = append(made, qb)
+			}
+			s.noteIssued(made, liveBefore)
+			if len(made) == 2 {
+				return "", vk.Violationf("name-given-twice-by-two-open-transactions", "%s: two transactions open at the same time each created a channel named %q and both committed (keys %d and %d)", op, "q", qa.Key(), qb.Key())
+			}
+			obs = fmt.Sprintf("ok:%d-created", len(made))
+			break
+		}
 		switch f[3] {
 		case "create-create":
 			if e1 = w.Create(ctx, &first); e1 == nil {
